@@ -303,8 +303,7 @@ class VarInt32(AbstractType[int]):
 
     @classmethod
     def encode(cls, value: int) -> bytes:
-        # bring it in line with the java binary repr
-        value &= 0xFFFFFFFF
+        # zig-zag as in java: (n << 1) ^ (n >> 31) with an arithmetic shift
         return UnsignedVarInt32.encode((value << 1) ^ (value >> 31))
 
 
